@@ -181,7 +181,9 @@ Definition recognised (c : N) : bool :=
 (* what the UPDATE decoder guarantees about an attribute vector (packet/src/bgp.rs,
    property C03/C05): unrecognised optional attributes are the only opaque ones,
    an AS_PATH is a well-formed segment list, a COMMUNITY value is a list of
-   4-octet communities *)
+   4-octet communities.  (Since 5e6671b / 36a2dde the decoder also refuses zero-length
+   AS_PATH segments and empty COMMUNITIES / CLUSTER_LIST; the statements do not need
+   that, so it is not assumed.) *)
 Definition decodable (attrs : list attr) : Prop :=
   (forall a, In a attrs -> is_opaque a = true -> recognised (a_code a) = false)
   /\ (forall a, In a attrs -> a_code a = AS_PATH -> exists segs, is_path a segs)
